@@ -61,6 +61,12 @@ def handleXml (op : Str) (args : List Str) : Option String :=
         | none => "none"
         | some r => joinFields [cs!"some", r])
     | _ => none
+  else if op == cs!"reader_accepts" then
+    -- reader_accepts isText(0|1) hasDoctype(0|1) s : the per-event check of `InputList::from_reader`
+    match args with
+    | [tx, hd, s] =>
+      some (if Xml.readerAccepts (tx == ['1']) s (hd == ['1']) then "ok" else "refused")
+    | _ => none
   else if op == cs!"text_attr" then
     match args with
     | [el] =>
